@@ -13,7 +13,7 @@ cd /verif
 VERIF_REPO=$wt VERIF_TAG=.mut$$ VERIF_SEED=$seed VERIF_RUNS=$runs ./bin/verifcheck.fg run --prop $prop --tier quick > /tmp/mutant.$$.log 2>&1
 rc=$?
 git -C /repo worktree remove --force $wt
-rm -f /verif/build/go.$prop.mut$$.mod /verif/build/go.$prop.mut$$.sum
+rm -f /verif/build/go.$prop.mut$$.mod /verif/build/go.$prop.mut$$.sum /verif/build/drivers.*mut$$*.test /verif/build/overlay.*mut$$.json; rm -rf /verif/build/replays.mut$$ /verif/build/evidence.mut$$ /verif/build/instr.*mut$$* 2>/dev/null
 if [ $rc -eq 1 ]; then echo "DETECTED $prop $(basename $(dirname $patch))/$(basename $patch): $(grep -m1 'class=' /tmp/mutant.$$.log | cut -c1-260)";
 elif [ $rc -eq 0 ]; then echo "MISSED   $prop $(basename $(dirname $patch))/$(basename $patch) ($(tail -1 /tmp/mutant.$$.log))";
 else echo "ERROR rc=$rc $prop $patch"; tail -5 /tmp/mutant.$$.log; fi
